@@ -8,6 +8,7 @@ CONSTANTS
   AllValues = FALSE
   Rots = {0}
   PatSet = {"ones", "alt"}
+  Boundaries = {1}
   NearFields = 5
   EFN = {}
   EFMaxThreads = 3
